@@ -248,6 +248,17 @@ macro_rules! misc_with_settings {
                                 if r.is_ok() || w.as_slice() != sv.as_slice() {
                                     ctx.oracle("C08", format!("{}: out-of-range extend_from_within_copy returned / changed the vector", what("extend_from_within_copy")));
                                 }
+                                // bounds that cannot be normalised at all: an excluded start / included end of usize::MAX
+                                for (k, r) in [(std::ops::Bound::Excluded(usize::MAX), std::ops::Bound::Unbounded), (std::ops::Bound::Unbounded, std::ops::Bound::Included(usize::MAX)), (std::ops::Bound::Excluded(sv.len()), std::ops::Bound::Unbounded)].into_iter().enumerate() {
+                                    let r1 = catch_unwind(AssertUnwindSafe(|| w.extend_from_within_copy(r))).is_err();
+                                    let r2 = catch_unwind(AssertUnwindSafe(|| { w.drain(r); })).is_err();
+                                    let r3 = catch_unwind(AssertUnwindSafe(|| { let t = w.split_off(r); drop(t); })).is_err();
+                                    let rs = catch_unwind(AssertUnwindSafe(|| { let mut c = sv.clone(); c.drain(r); })).is_err();
+                                    ctx.oracle_checks += 1;
+                                    if !(r1 && r2 && r3 && rs) || w.as_slice() != sv.as_slice() {
+                                        ctx.oracle("C08", format!("{}: range bound case {k} ({:?}): extend_from_within_copy panicked={r1} drain panicked={r2} split_off panicked={r3} (std drain panicked={rs}); vector {:?} (expected untouched {:?})", what("range bounds"), r, w.as_slice(), sv));
+                                    }
+                                }
                                 let s: &mut [u64] = w.into_slice();
                                 let ok2 = poke(1);
                                 if s != sv.as_slice() || !ok2 {
